@@ -314,6 +314,27 @@ def run_mesh(case, ctx):
                 worst = max(worst, abs(got - want) / scale)
                 nmom += 1
             ctx.check("mesh-moment", worst, 1e-9, key + "/moments", kmax=kmax, moments=nmom)
+    # ---- integration points of a deformed configuration are asked for (an option of Get_GaussCoordinates_e_pg); the answer is the
+    # undeformed point plus the interpolated displacement, and asking leaves the mesh where it was: centroid and first moments again
+    umat = np.zeros((mesh.Nn, 3))
+    umat[:, :dim] = 0.3 + rng.uniform(-0.2, 0.2, (mesh.Nn, dim))
+    with ctx.monitored("no-exception", key + "/deformed-query/raised"):
+        with quiet():
+            worst = 0.0
+            for g in groups:
+                mt = MatrixType.mass
+                x0g = np.asarray(g.Get_GaussCoordinates_e_pg(mt), float).copy()
+                xdg = np.asarray(g.Get_GaussCoordinates_e_pg(mt, displacementMatrix=umat), float)
+                Npg = np.asarray(g.Get_N_pg(mt))[:, 0, :]
+                ug = np.einsum("pn,end->epd", Npg, umat[g.connect])
+                worst = max(worst, float(np.abs(xdg - x0g - ug).max()))
+                worst = max(worst, float(np.abs(np.asarray(g.Get_GaussCoordinates_e_pg(mt), float) - x0g).max()))
+            center_again = np.asarray(mesh.center)
+            first_again = [float(sum(g.Integrate_e(lambda x, y, z, d=d: (x, y, z)[d]).sum() for g in groups)) for d in range(dim)]
+    ctx.check("deformed-query", worst / size, 1e-12, key + "/deformed-query/points")
+    ctx.check("mesh-centroid", float(np.abs(center_again - cen).max() / size), 1e-9, key + "/centroid@after-deformed-query", got=center_again, want=cen)
+    ctx.check("mesh-moment", float(max(abs(first_again[d] - cen[d] * measure) for d in range(dim)) / (measure * size)), 1e-9,
+              key + "/first-moments@after-deformed-query", got=first_again)
     ctx.describe(f"mesh/{et}/{mc}", mesh.Ne >= 2, et=et, mesh=mc, Ne=mesh.Ne, measure=measure, moments_checked=nmom, groups=[g.elemType.value for g in groups])
 
 
